@@ -1024,8 +1024,10 @@ class ConfigLoader(BaseConfig):
         if neglect_params is None:
             neglect_params = self._neglect_when_set_params
         if len(neglect_params) != 0:
+            trainable = amplitude.vm.trainable_vars
             for v in params:
-                if v in self._neglect_when_set_params:
+                # a floated mass or width (mass_free, free_var) is a fit result
+                if v in self._neglect_when_set_params and v not in trainable:
                     warnings.warn(
                         "Neglect {} when setting params.".format(
                             neglect_params
